@@ -138,14 +138,33 @@ func TestVerifC04Api(t *testing.T) {
 		seq := []string{"c04api", j.h.name, fmt.Sprint(j.restart), strings.Join(j.order, "")}
 		// addressed reports whether the state machine addressed message m to session num (C12: nobody else
 		// is served it, whichever path of the handler produced the line)
+		// reference: a deep copy of every stored batch, taken before any reader touched the stream (readers share
+		// the decoded batches of the node's cache: a reader that modifies one must not modify the oracle)
+		type refMsg struct {
+			reply uint64
+			data  string
+			for_  map[uint64]bool
+		}
+		ref := map[uint64][]refMsg{}
+		for _, e := range n.logEntries() {
+			if batch, ok := outputStream.Get(robust.Id{Id: e.Id.Id}); ok {
+				for _, om := range batch {
+					f := map[uint64]bool{}
+					for k, v := range om.InterestingFor {
+						f[k] = v
+					}
+					ref[e.Id.Id] = append(ref[e.Id.Id], refMsg{om.Id.Reply, om.Data, f})
+				}
+			}
+		}
 		addressed := func(m robust.Message, num uint64) bool {
-			batch, ok := outputStream.Get(robust.Id{Id: m.Id.Id})
+			batch, ok := ref[m.Id.Id]
 			if !ok {
-				return true // compacted meanwhile: nothing to compare with
+				return true // produced after the reference was taken (markers)
 			}
 			for _, om := range batch {
-				if om.Id.Reply == m.Id.Reply {
-					return om.InterestingFor[num]
+				if om.reply == m.Id.Reply {
+					return om.for_[num] && om.data == m.Data
 				}
 			}
 			return false
@@ -193,14 +212,10 @@ func TestVerifC04Api(t *testing.T) {
 				for _, m := range full {
 					served[fmt.Sprintf("%d.%d", m.Id.Id, m.Id.Reply)] = true
 				}
-				for _, e := range n.logEntries() {
-					batch, ok := outputStream.Get(robust.Id{Id: e.Id.Id})
-					if !ok {
-						continue
-					}
+				for id, batch := range ref {
 					for _, om := range batch {
-						if om.InterestingFor[s.Num] && !served[fmt.Sprintf("%d.%d", om.Id.Id, om.Id.Reply)] && !strings.HasSuffix(om.Data, marker) && om.Id.Id <= full[len(full)-1].Id.Id {
-							res.report(sigs, "C12", "a message addressed to a session is not served to it by GET messages", fmt.Sprintf("history %s, readers in the order %v, session %s: %d.%d %q is addressed to it in the stored batch", j.h.name, j.order, who, om.Id.Id-robust.MessageOffset, om.Id.Reply, om.Data), seq)
+						if om.for_[s.Num] && !served[fmt.Sprintf("%d.%d", id, om.reply)] {
+							res.report(sigs, "C12", "a message addressed to a session is not served to it by GET messages", fmt.Sprintf("history %s, readers in the order %v, session %s: %d.%d %q is addressed to it in the stored batch", j.h.name, j.order, who, id-robust.MessageOffset, om.reply, om.data), seq)
 						}
 					}
 				}
